@@ -1,8 +1,11 @@
 #!/bin/sh
 # re-runs every kept seeded change against the current /repo tree (scratch copies; /repo itself is not touched)
+# the check that is run is the one of the change's property unless meta.json names another one under "caught_by"
 cd "$(dirname "$0")/.." || exit 2
 for d in seeded/*/; do
   pid=$(basename "$d" | cut -d- -f1)
+  by=$(python3 -c "import json,sys; print(json.load(open(sys.argv[1])).get('caught_by',''))" "$d/meta.json" 2>/dev/null)
+  [ -n "$by" ] && pid=$by
   echo "== $d"
   tools/seeded.py "$d" "$pid" 2>&1 | grep -v "Warning\|^  [a-z'i@_]\|NS_AND\|KNOWN-FINDING" | cut -c1-200 | head -4
 done
